@@ -425,6 +425,11 @@ func (s *AbsfsNFS) WriteWithContext(ctx context.Context, node *NFSNode, offset i
 		return 0, os.ErrPermission
 	}
 
+	// Enforce the export's MaxFileSize: a write may not reach past it.
+	if policy.MaxFileSize > 0 && len(data) > 0 && offset > policy.MaxFileSize-int64(len(data)) {
+		return 0, &os.PathError{Op: "write", Path: node.path, Err: syscall.EFBIG}
+	}
+
 	// Create context with timeout
 	timeout := tuning.Timeouts.WriteTimeout
 	ctx, cancel := context.WithTimeout(ctx, timeout)
